@@ -41,7 +41,7 @@ def S(profile, quick, thorough, oracles_, **kw):
 
 PROPS = {
     "C01": dict(lean=["Orda.Props.C01"], rule="a history is non-trivial when at least one operation of another replica was delivered after a concurrent local operation; distinct = distinct command sequences (client ids erased)",
-                slices=[S("conv", 400, 6000, ["corr", "converge", "spec", "no_panic"])], assumptions=REPLICA_ASSUMPTIONS),
+                slices=[S("conv", 400, 6000, ["corr", "converge", "spec", "no_panic"]), S("tx", 200, 3000, ["corr", "converge"])], assumptions=REPLICA_ASSUMPTIONS),
     "C02": dict(lean=["Orda.Props.C02"], rule="non-trivial: ≥2 replicas issued operations on the same key/position concurrently (a delivery happened after a local call); distinct command sequences",
                 slices=[S("conf", 500, 8000, ["corr", "spec", "converge"])], assumptions=REPLICA_ASSUMPTIONS),
     "C03": dict(lean=["Orda.Props.C03"], rule="non-trivial: the single-replica history contains at least one refused (invalid) call and one accepted call; distinct command sequences",
